@@ -1,0 +1,77 @@
+//! Verification hooks for the environment (cargo feature `verif`, off by default): a read-only
+//! view of private routing/await/ownership state via a child module.
+
+use super::*;
+
+#[derive(Debug, Clone)]
+pub struct PendingAwaitView {
+    pub awaiter: ProcessId,
+    pub expected_workers: Vec<WorkerId>,
+    /// worker -> (target -> answer), both levels sorted by key.
+    pub responses: Vec<(WorkerId, Vec<(ProcessId, Option<RuntimeResult>)>)>,
+}
+
+#[derive(Debug, Clone)]
+pub struct EnvironmentView {
+    pub process_router: Vec<(ProcessId, WorkerId)>,
+    pub pending_awaits: Vec<PendingAwaitView>,
+    pub resource_ownership: Vec<(ResourceId, ProcessId)>,
+    pub next_process_id: ProcessId,
+    pub next_request_id: u64,
+    /// (request id, answered?)
+    pub pending_requests: Vec<(u64, bool)>,
+}
+
+pub fn sorted_resources(mut ids: Vec<ResourceId>) -> Vec<ResourceId> {
+    ids.sort_unstable();
+    ids
+}
+
+impl<E: Effect> Environment<E> {
+    pub fn verif_view(&self) -> EnvironmentView {
+        let mut process_router: Vec<_> = self.process_router.iter().map(|(k, v)| (*k, *v)).collect();
+        process_router.sort_unstable();
+        let mut pending_awaits: Vec<PendingAwaitView> = self
+            .pending_awaits
+            .iter()
+            .map(|(awaiter, pending)| {
+                let mut expected_workers: Vec<_> = pending.expected_workers.iter().copied().collect();
+                expected_workers.sort_unstable();
+                let mut responses: Vec<_> = pending
+                    .responses
+                    .iter()
+                    .map(|(w, results)| {
+                        let mut results: Vec<_> =
+                            results.iter().map(|(k, v)| (*k, v.clone())).collect();
+                        results.sort_by_key(|(k, _)| *k);
+                        (*w, results)
+                    })
+                    .collect();
+                responses.sort_by_key(|(w, _)| *w);
+                PendingAwaitView {
+                    awaiter: *awaiter,
+                    expected_workers,
+                    responses,
+                }
+            })
+            .collect();
+        pending_awaits.sort_by_key(|p| p.awaiter);
+        let mut resource_ownership: Vec<_> =
+            self.resource_ownership.iter().map(|(k, v)| (*k, *v)).collect();
+        resource_ownership.sort_unstable();
+        let mut pending_requests: Vec<_> = self
+            .pending_requests
+            .iter()
+            .map(|(k, v)| (*k, v.is_some()))
+            .collect();
+        pending_requests.sort_unstable();
+        EnvironmentView {
+            process_router,
+            pending_awaits,
+            resource_ownership,
+            next_process_id: self.next_process_id,
+            next_request_id: self.next_request_id,
+            pending_requests,
+        }
+    }
+}
